@@ -428,6 +428,8 @@ def run(F, R, tier):
                 r5.require(ok, (ty, f["name"], "skip-without-default"), "%s.%s is skipped when serialising but is neither Option nor #[serde(default)]: deserialising the library's own output fails" % (L.short(ty), f["name"]))
             if f["name"] == "custom":
                 r5.require("flatten" in attrs, (ty, "custom", "flatten"), "custom claims are not flattened into the claims set")
+    for ty in (CJ + "::CredentialJwtClaims", CJ + "::InnerCredential", CJ + "::IssuanceDateClaims", PJ + "::PresentationJwtClaims", PJ + "::InnerPresentation", CRED, PRES):
+        L.serde_skip_inverse(r5, F, ty)
     r5.floor(27)
 
 
